@@ -5,8 +5,11 @@
         → <ok|raised:<code>|hang> exp=<n> wire=<n> f<i>=<len reqs>:<saved code|->:<pos>:<closed 0|1> …
     dest                                                        → hex;hex;…
     bad                                                         → badSince, comma separated
+    getfo|get <hex remote> <maxReq> <chunk> <stat code> <open code> <plan d<k>,f<c>,…|->
+        → ok <hex local> | raised:<code> | fuel           (sequential model PV/Model/SftpGet.lean)
 -/
 import PV.Model.SftpClient
+import PV.Model.SftpGet
 import PV.Base.DriverIO
 open PV PV.SftpClient
 
@@ -37,6 +40,19 @@ def showSt (s : St) : String :=
       (if f.closed then "1" else "0")
   s!"exp={s.expecting.length} wire={s.wire.length} " ++ " ".intercalate fs
 
+def parseOut (t : String) : Option SftpGet.RdOut :=
+  if t.startsWith "d" then (t.drop 1).toNat?.map .data
+  else if t.startsWith "f" then (t.drop 1).toNat?.map .fail
+  else none
+
+def parsePlan (s : String) : Option (List SftpGet.RdOut) :=
+  if s == "-" then some [] else (s.splitOn ",").mapM parseOut
+
+def showGet : SftpGet.Res → String
+  | .ok b => "ok " ++ toHexTok b
+  | .raised c => s!"raised:{c}"
+  | .fuel => "fuel"
+
 def stepLine (st : Option St) (line : String) : Option St × String :=
   match words line, st with
   | ["init", m, n, wf, sf], _ =>
@@ -49,6 +65,13 @@ def stepLine (st : Option St) (line : String) : Option St × String :=
     | some op =>
       let (s', r) := stepOp s op
       (some s', showRes r ++ " " ++ showSt s')
+  | [mode, hex, m, ch, sc, oc, plan], _ =>
+    if mode == "getfo" || mode == "get" then
+      match ofHex? hex, m.toNat?, ch.toNat?, sc.toNat?, oc.toNat?, parsePlan plan with
+      | some r, some mr, some c, some a, some b, some pl =>
+        (st, showGet ((if mode == "get" then SftpGet.get else SftpGet.getfo) r mr c a b pl 100000))
+      | _, _, _, _, _, _ => (st, "bad-op")
+    else (st, "bad-op")
   | ["dest"], some s => (st, ";".intercalate (s.dest.map toHexTok))
   | ["bad"], some s => (st, ",".intercalate (s.badSince.map toString))
   | _, _ => (st, "bad-op")
